@@ -93,18 +93,26 @@ def z2Charge1 (ss : Subsizes) (dr : Draws) : Nat :=
   | .minimal => 0
   | .explicit _ => 0
 
-/-- `(d0, d1)` of `rand_z2_index` for `d != 1`; `d0, d1 = subsizes` raises `ValueError` unless the
-    sequence has exactly two entries -/
-def z2Sizes (d : Nat) (ss : Subsizes) (dr : Draws) : Except Err (Nat × Nat) :=
+/-- the `subsizes` chain of `rand_z2_index` for `d != 1`: `some (d0, d1)` goes on to the common
+    `return BlockIndex({0: d0, 1: d1})`; `none` is the early `return` of the "minimal" branch
+    (`BlockIndex({0: d})`, no entry for the odd charge); `d0, d1 = subsizes` raises `ValueError`
+    unless the sequence has exactly two entries -/
+def z2Sizes (d : Nat) (ss : Subsizes) (dr : Draws) : Except Err (Option (Nat × Nat)) :=
   match ss with
-  | .random => .ok (dr.d0, d - dr.d0)
-  | .equal => .ok (d / 2, d - d / 2)
-  | .maximal => .ok (d / 2, d - d / 2)
-  | .minimal => .ok (d, 0)
+  | .random => .ok (some (dr.d0, d - dr.d0))
+  | .equal => .ok (some (d / 2, d - d / 2))
+  | .maximal => .ok (some (d / 2, d - d / 2))
+  | .minimal => .ok none
   | .explicit sizes =>
     match sizes with
-    | [a, b] => .ok (a, b)
+    | [a, b] => .ok (some (a, b))
     | _ => .error Err.value
+
+/-- the index returned for `d != 1` -/
+def z2Index (d : Nat) (dual : Bool) (p : Option (Nat × Nat)) : Index :=
+  match p with
+  | none => mkIndex [(0, 0)] [d] dual
+  | some p => mkIndex [(0, 0), (1, 0)] [p.1, p.2] dual
 
 /-- `rand_z2_index(d, dual, subsizes, seed)` -/
 def randZ2Index (d : DArg) (dual : Option Bool) (ss : Subsizes) (dr : Draws) : Except Err Index :=
@@ -114,7 +122,7 @@ def randZ2Index (d : DArg) (dual : Option Bool) (ss : Subsizes) (dr : Draws) : E
     if d == 1 then
       .ok (mkIndex [(((z2Charge1 ss dr : Nat) : Int), 0)] [1] (dual.getD dr.dual))
     else
-      (z2Sizes d ss dr).map (fun p => mkIndex [(0, 0), (1, 0)] [p.1, p.2] (dual.getD dr.dual))
+      (z2Sizes d ss dr).map (z2Index d (dual.getD dr.dual))
 
 /-! ### Z2Z2 -/
 
